@@ -5,5 +5,6 @@ CONSTANTS
   Thresholds = {0, 1, 2, 3}
   AnswerDelays = {0}
   DrainLens = {1, 2}
-INVARIANTS InvFinal Export
+INVARIANTS TypeOK InvAccuracy InvTiming InvSilentStop InvCounter InvCompleteness InvFinal InvGoneAtClose InvNoTickAfterUser InvGoneWhenClosing Export
+PROPERTIES NoPingAfterStop Terminates
 CHECK_DEADLOCK FALSE
